@@ -90,26 +90,32 @@ Proof.
     + apply IH in H. cbn in H. rewrite H. exact Hex.
 Qed.
 
+Lemma ptl_peer mm ev w m' res w' es :
+  persist_then_loop tc dec t mm ev w = ((m', res), w', es) -> d_peer (m_data m') = d_peer (m_data mm).
+Proof.
+  intros Hk. unfold persist_then_loop in Hk.
+  apply bind_inv in Hk. destruct Hk as (ok & w1 & e1 & e2 & Hp & Hk & _).
+  destruct ok; cbn [negb] in Hk; [eapply event_loop_peer; eauto|].
+  apply ret_inv in Hk. destruct Hk as (Hk & _ & _). inversion Hk; subst. reflexivity.
+Qed.
+
 Lemma send_event_peer m ev ctx w m' res w' es :
   send_event tc dec t m ev ctx w = ((m', res), w', es) -> d_peer (m_data m') = d_peer (m_data m).
 Proof.
   intros H. unfold send_event in H.
-  assert (P : forall mm, persist_then_loop tc dec t mm ev w = ((m', res), w', es) \/
-                         persist_then_loop tc dec t mm Ev_Invalid w = ((m', res), w', es) ->
-                         d_peer (m_data m') = d_peer (m_data mm)).
-  { intros mm [Hk|Hk]; unfold persist_then_loop in Hk;
-      apply bind_inv in Hk; destruct Hk as (ok & w1 & e1 & e2 & Hp & Hk & _);
-      (destruct ok; cbn [negb] in Hk; [eapply event_loop_peer; eauto|
-       apply ret_inv in Hk; destruct Hk as (Hk & _ & _); inversion Hk; subst; reflexivity]). }
   destruct (String.eqb ev Ev_Done).
   { apply ret_inv in H. destruct H as (H & _ & _). inversion H; subst. reflexivity. }
+  destruct (next_state t (m_cur m) ev).
+  2:{ apply ret_inv in H. destruct H as (H & _ & _). inversion H; subst. reflexivity. }
   destruct ctx as [c|].
   - destruct (validate_ctx (m_data m) c); cbn [negb] in H.
     + destruct (apply_ctx (m_data m) c) as [d'|] eqn:Hap.
-      * rewrite (P _ (or_introl H)). cbn. eapply apply_ctx_peer; eauto.
+      * rewrite (ptl_peer _ _ _ _ _ _ _ H). cbn. eapply apply_ctx_peer; eauto.
       * apply ret_inv in H. destruct H as (H & _ & _). inversion H; subst. reflexivity.
-    + apply (P _ (or_intror H)).
-  - apply (P _ (or_introl H)).
+    + unfold accepted_then_loop in H. destruct (next_state t (m_cur m) Ev_Invalid).
+      * eapply ptl_peer; eauto.
+      * apply ret_inv in H. destruct H as (H & _ & _). inversion H; subst. reflexivity.
+  - eapply ptl_peer; eauto.
 Qed.
 
 Lemma event_loop_marks fuel : forall m ev w m' res w' es,
@@ -177,12 +183,16 @@ Proof.
   intros H Hc Hn. unfold send_event in H.
   destruct (String.eqb ev Ev_Done).
   { apply ret_inv in H. destruct H as (H & _ & _). inversion H; subst. contradiction. }
+  destruct (next_state t (m_cur m) ev).
+  2:{ apply ret_inv in H. destruct H as (H & _ & _). inversion H; subst. contradiction. }
   destruct ctx as [c|].
   - destruct (validate_ctx (m_data m) c); cbn [negb] in H.
     + destruct (apply_ctx (m_data m) c) as [d'|] eqn:Hap.
       * apply ptl_marks in H; auto. cbn in H. rewrite (apply_ctx_peer _ _ _ Hap) in H. exact H.
       * apply ret_inv in H. destruct H as (H & _ & _). inversion H; subst. contradiction.
-    + eapply ptl_marks; eauto.
+    + unfold accepted_then_loop in H. destruct (next_state t (m_cur m) Ev_Invalid).
+      * eapply ptl_marks; eauto.
+      * apply ret_inv in H. destruct H as (H & _ & _). inversion H; subst. contradiction.
   - eapply ptl_marks; eauto.
 Qed.
 
@@ -318,7 +328,7 @@ Proof.
   destruct (next_state t "" ev) as [cs|] eqn:Hn; [|discriminate].
   apply andb_true_iff in Hok. destruct Hok as [Hroot Hpath].
   apply root_is_inv in Hroot. destruct Hroot as (sd & ch & Hl & Hact).
-  unfold send_event in H. rewrite Hev, Hv, Hap in H. cbn [negb] in H.
+  unfold send_event in H. rewrite Hev, Hcur, Hn, Hv, Hap in H. cbn [negb] in H.
   unfold persist_then_loop in H.
   apply bind_inv in H. destruct H as (ok & w1 & e1 & e2 & Hp & H & ->).
   pose proof (persist_susp _ _ _ _ _ Hp) as Hs1. rewrite Hs in Hs1.
